@@ -414,12 +414,15 @@ PROPS = {
              'injector is the only producer of its output types and each of its inputs has one source): the variant binds, includes the same providers and every '
              'call receives each value from the same producer (logs compared with serials stripped). stream reorder: ordinary chains with Reorder sprinkled on '
              'injectors/wrappers; monitor: providers not marked Reorder keep their listed relative order and all call arguments equal the reference semantics\'',
-        level_text='Theorems reorder_perm (the reordered list is a permutation of the input, all lists), C17_no_reorder_identity, chain_refines and select_sound '
-                   '(whatever order reorder produced, selection is sound and every executed provider receives its inputs as in C01); Coq, no axioms. That a '
-                   'displaced injector lands between its unique producers and its consumers, and that non-Reorder providers keep their relative order, is validated '
+        level_text='Theorems reorder_perm (the reordered list is a permutation of the input, all lists), C17_non_reorder_keep_listed_order '
+                   '(reorder_keeps_listed_order: the providers not marked Reorder appear in the reordered list in exactly their listed order, for every list, '
+                   'every constraint graph and any fuel; proved by an invariant of the topological sort - the next non-Reorder provider emitted, through a queue or '
+                   'forced from the cannotReorder list, is the first one not emitted yet, because each has a strong edge to its predecessor), C17_no_reorder_identity, '
+                   'chain_refines and select_sound (whatever order reorder produced, selection is sound and every executed provider receives its inputs as in C01); '
+                   'Coq, no axioms. That a displaced injector lands between its unique producers and its consumers (first sentence of the property) is validated '
                    'by the differential streams (impl = model of reorder.go on both chains, relation checked on the implementation), not proved.',
         level_note=CHAIN_NOTE + ' Defect D16 (static taint computed before Reorder) was repaired in /repo.', design_ref='DESIGN.md section 8 (C17)',
-        assumptions=['placement theorem for the topological sort not proved'],
+        assumptions=['placement of a displaced Reorder\'d injector between its producers and consumers is validated, not proved'],
     ),
     'C18': dict(
         monitor=True,
